@@ -332,8 +332,18 @@ func g16Run(b *Behaviour) Result {
 	default:
 		res.Verdict, res.Stage, res.Err = "reject", g16Stage(verr), verr.Error()
 	}
+	if G16Observer != nil && len(vopts) == 0 && !pan {
+		G16Observer(b, f.ccs, toVerify, vk, pw, res.Verdict)
+	}
 	return res
 }
+
+// G16Observer, when set, sees every edited triple that reached the native verifier (default options) together with the
+// native verdict; used by the recursion replay (C17).
+var G16Observer func(b *Behaviour, ccs constraint.ConstraintSystem, proof groth16.Proof, vk groth16.VerifyingKey, pw witness.Witness, verdict string)
+
+// G16Run is g16Run for other packages.
+func G16Run(b *Behaviour) Result { return g16Run(b) }
 
 func g16Replay(args common.Args, out *common.Out) error {
 	behs, err := common.ReadNDJSON[Behaviour](args.Get("in", ""))
